@@ -21,7 +21,7 @@ from koala.lattice import Lattice, LatticeException
 
 DRIVERS = ("c16",)
 MODEL_TARGETS = ["Model/Clip.vo", "Model/Plot.vo"]
-TARGETS = ["Proofs/ClipFacts.vo", "Proofs/PlotFacts.vo", "Proofs/VisFacts.vo"]
+TARGETS = ["Proofs/ClipFacts.vo", "Proofs/PlotFacts.vo", "Proofs/VisFacts.vo", "Proofs/CoverFacts.vo", "Proofs/PlaqFacts.vo"]
 LEVEL = "proof"
 TRUST = [
     "hand-written Gallina model coq/Model/Plot.v of plotting.py (_process_plot_args, _broadcast_args, plot_vertices/edges/plaquettes replication rules, "
@@ -30,6 +30,7 @@ TRUST = [
     "float rounding of t / positions: drawn coordinates are compared with the exact model within 1e-9; edges/plaquettes whose visibility decision is within 1e-9 of a threshold "
     "(end point on a cell line, axis-aligned edge on a cell line) are counted and skipped (genericity clause)",
     "Sutherland–Hodgman clipping + shoelace area in coq/Model/Clip.v used by the spec checker for plaquette areas is executable but not proved correct (the edge clip interval IS proved: C16_clip_interval_correct)",
+    "exact-grid stream (vertices on the 1/8 grid, also ON cell lines, edge vectors in {0,+-1/8,+-1/4,+-1/2}): float arithmetic of the rules is exact there, model and implementation must agree (K); the property itself is not claimed on cell lines (S skipped)",
     "the subset has exactly N elements: a length-N label array is the per-element form by definition (lead decision); only that reading is generated and checked there",
 ]
 ASSUMPTIONS = ["edges spanning less than one cell per coordinate, generic position: no end point on a cell line, no segment through a cell corner (property quantifier)",
@@ -283,6 +284,35 @@ def read_plaquettes(collections):
     return out
 
 
+# ------------------------------------------------------------------ order-insensitive comparison
+def match_multisets(A, B, close):
+    """A, B: lists of (numeric vector, payload).  True when they can be paired up with close(a, b) for every pair.
+    The drawing order inside a collection is not constrained by the property."""
+    if len(A) != len(B):
+        return False
+    key = lambda x: tuple(np.round(np.asarray(x[0], dtype=float).ravel(), 6)) + (str(x[1]),)
+    A2, B2 = sorted(A, key=key), sorted(B, key=key)
+    if all(close(a, b) for a, b in zip(A2, B2)):
+        return True
+    used = [False] * len(B)
+    for a in A:
+        for j, b in enumerate(B):
+            if not used[j] and close(a, b):
+                used[j] = True
+                break
+        else:
+            return False
+    return True
+
+
+def poly_close(a, b, tol=TOL):
+    """same polygon up to a cyclic rotation of the vertex list"""
+    a, b = np.asarray(a, dtype=float), np.asarray(b, dtype=float)
+    if a.shape != b.shape:
+        return False
+    return any(np.max(np.abs(np.roll(a, r, axis=0) - b)) <= tol for r in range(len(a)))
+
+
 # ------------------------------------------------------------------ one lattice
 def exact_unwrapped_edge(pos, edges, crossing, e):
     j, k = int(edges[e][0]), int(edges[e][1])
@@ -343,22 +373,17 @@ def check_vertices(ctx, lc, pa, case):
         if idx is None:
             res.violation("vertices:invalid-subset-accepted", f"{what}: subset rejected by Python sequences but accepted", case)
             continue
-        if len(off) != len(idx) or (len(idx) and not np.array_equal(off, pos[idx])):
+        vclose = lambda a, b: a[1] == b[1] and np.max(np.abs(np.asarray(a[0]) - np.asarray(b[0]))) <= TOL
+        got_ms = [(off[k], fc[k] if k < len(fc) else None) for k in range(len(off))]
+        if not match_multisets([(off[k], 0) for k in range(len(off))], [(pos[i], 0) for i in idx], vclose):
             res.violation("vertices:position", f"{what}: scatter offsets are not the positions of the selected vertices", case)
-        exp = [scheme_rgba(pa["scheme"], per_elem[i]) for i in idx]
-        if len(idx) and fc != exp:
-            bad = [k for k in range(min(len(fc), len(exp))) if fc[k] != exp[k]]
-            res.violation("vertices:colour", f"{what}: vertex colours differ from scheme[label] at subset positions {bad[:5]}", case)
+        elif not match_multisets(got_ms, [(pos[i], scheme_rgba(pa["scheme"], per_elem[i])) for i in idx], vclose):
+            res.violation("vertices:colour", f"{what}: vertex colours differ from scheme[label]", case)
         # K
         c = Cursor(o["pts"])
         mp = c.list(lambda: (rd_pt(c), c.z()))
-        if len(mp) != len(off):
-            ctx.k_mismatch(f"{what}: model draws {len(mp)} vertices, implementation {len(off)}", case)
-        else:
-            for k, ((p, col), q) in enumerate(zip(mp, off)):
-                if abs(float(p[0]) - q[0]) > TOL or abs(float(p[1]) - q[1]) > TOL or rgba(pa["scheme"][col]) != fc[k]:
-                    ctx.k_mismatch(f"{what}: vertex {k} differs (model {float(p[0]), float(p[1]), col})", case)
-                    break
+        if not match_multisets(got_ms, [((float(p[0]), float(p[1])), rgba(pa["scheme"][col])) for p, col in mp], vclose):
+            ctx.k_mismatch(f"{what}: model draws {len(mp)} vertices {[(float(p[0]), float(p[1]), col) for p, col in mp][:3]}, implementation {len(off)} {got_ms[:3]}", case)
     return results
 
 
@@ -463,19 +488,17 @@ def check_edges(ctx, lc, pa, dirs, case):
         if with_dirs:
             if len(arrows) != len(segs):
                 res.violation("edges:arrow-count", f"{what}: {len(segs)} drawn pieces but {len(arrows)} arrows", case)
-            else:
-                for k, (s, a) in enumerate(zip(segs, arrows)):
-                    e = owner[k]
-                    if e is None or e in skip:
-                        continue
-                    ctr = (s[0] + s[1]) / 2
-                    v = (s[1] - s[0]) * dirs[e]
-                    tip = np.array([a[0] + a[2], a[1] + a[3]])
-                    dv = np.array([a[2], a[3]])
-                    along = float(dv @ v) / (np.linalg.norm(dv) * np.linalg.norm(v) + 1e-300)
-                    if np.max(np.abs(tip - ctr)) > 1e-9 or along < 1 - 1e-9 or a[4] != cols[k]:
-                        res.violation("edges:arrow", f"{what}: arrow {k} of edge {e} (direction {dirs[e]}): tip {tip.tolist()} centre {ctr.tolist()} cos {along} colour {a[4]} vs {cols[k]}", case)
-                        break
+            elif not skip and all(e is not None for e in owner):
+                exp_arrows = []
+                for k, sg in enumerate(segs):
+                    v = (sg[1] - sg[0]) * dirs[owner[k]]
+                    ctr = (sg[0] + sg[1]) / 2
+                    exp_arrows.append(([ctr[0], ctr[1], v[0] / (np.linalg.norm(v) + 1e-300), v[1] / (np.linalg.norm(v) + 1e-300)], cols[k]))
+                got_arrows = [([a[0] + a[2], a[1] + a[3], a[2] / (np.hypot(a[2], a[3]) + 1e-300), a[3] / (np.hypot(a[2], a[3]) + 1e-300)], a[4]) for a in arrows]
+                res.extra["arrow_sets_checked"] = res.extra.get("arrow_sets_checked", 0) + 1
+                if not match_multisets(got_arrows, exp_arrows, lambda a, b: a[1] == b[1] and np.max(np.abs(np.asarray(a[0]) - np.asarray(b[0]))) <= 1e-8):
+                    bad = [a for a in got_arrows if not any(a[1] == b[1] and np.max(np.abs(np.asarray(a[0]) - np.asarray(b[0]))) <= 1e-8 for b in exp_arrows)][:2]
+                    res.violation("edges:arrow", f"{what}: arrows do not end at the centres of the drawn pieces pointing along (second - first vertex) * direction in the piece's colour, e.g. {bad}", case)
         # K: model's drawn list vs the artists (pieces of skipped edges removed on both sides), in order
         c = Cursor(o["drawn"])
         md = c.list(lambda: ([rd_pt(c), rd_pt(c)], c.z(), c.z(), rd_pt(c), rd_pt(c)))
@@ -484,23 +507,27 @@ def check_edges(ctx, lc, pa, dirs, case):
         def not_skipped(s):
             return not any(match_translate(s, *fl[e]) is not None for e in skip)
         kskip = set() if lc.exact else skip
-        I = [(s, cols[k], k) for k, s in enumerate(segs) if not kskip or not_skipped(s)]
-        M = [(s, rgba(pa["scheme"][d[1]]), d) for s, d in zip(mseg, md) if not kskip or not_skipped(s)]
-        if len(I) != len(M):
-            ctx.k_mismatch(f"{what}: model draws {len(M)} pieces, implementation {len(I)}", case)
-        else:
-            for (s, col, k), (ms, mcol, d) in zip(I, M):
-                if np.max(np.abs(s - ms)) > TOL or col != mcol:
-                    ctx.k_mismatch(f"{what}: drawn piece {k}: implementation {s.tolist()} {col}, model {ms.tolist()} {mcol}", case)
-                    break
-                if with_dirs and len(arrows) == len(segs):
-                    a = arrows[k]
-                    mc = np.array([float(d[3][0]) / 2, float(d[3][1]) / 2])
-                    mv = np.array([float(d[4][0]), float(d[4][1])])
-                    dv = np.array([a[2], a[3]])
-                    if np.max(np.abs(np.array([a[0] + a[2], a[1] + a[3]]) - mc)) > TOL or float(dv @ mv) <= 0 or abs(dv[0] * mv[1] - dv[1] * mv[0]) > 1e-9:
-                        ctx.k_mismatch(f"{what}: arrow {k} differs from the model", case)
-                        break
+
+        def arrow_vec(k):
+            if not (with_dirs and len(arrows) == len(segs)):
+                return [0.0] * 4
+            a = arrows[k]
+            n = np.hypot(a[2], a[3]) + 1e-300
+            return [a[0] + a[2], a[1] + a[3], a[2] / n, a[3] / n]       # tip, unit direction
+
+        def model_arrow(d):
+            if not (with_dirs and len(arrows) == len(segs)):
+                return [0.0] * 4
+            mv = np.array([float(d[4][0]), float(d[4][1])])
+            n = np.hypot(*mv) + 1e-300
+            return [float(d[3][0]) / 2, float(d[3][1]) / 2, mv[0] / n, mv[1] / n]
+        I = [(list(s.ravel()) + arrow_vec(k), cols[k]) for k, s in enumerate(segs) if not kskip or not_skipped(s)]
+        M = [(list(ms.ravel()) + model_arrow(d), rgba(pa["scheme"][d[1]])) for ms, d in zip(mseg, md) if not kskip or not_skipped(ms)]
+        eclose = lambda a, b: a[1] == b[1] and np.max(np.abs(np.asarray(a[0]) - np.asarray(b[0]))) <= TOL
+        if not match_multisets(I, M, eclose):
+            onlyI = [a for a in I if not any(eclose(a, b) for b in M)][:2]
+            onlyM = [b for b in M if not any(eclose(a, b) for a in I)][:2]
+            ctx.k_mismatch(f"{what}: drawn pieces differ: implementation {len(I)} pieces, model {len(M)}; only in implementation {onlyI}; only in model {onlyM}", case)
     # S by the extracted checker: clip lengths sum to 1, images disjoint
     if spec_lines:
         for (what, g_edges), o in zip(spec_meta, run_driver(ctx.exe["c16"], spec_lines)):
@@ -601,8 +628,8 @@ def check_plaquettes(ctx, lc, pa, case):
                 if poly.shape != exf.shape:
                     ok = False
                     break
-                tau = np.round(poly[0] - exf[0])
-                if np.max(np.abs(poly - exf - tau)) > TOL:
+                tau = np.round(np.mean(poly, axis=0) - np.mean(exf, axis=0))
+                if not poly_close(poly - tau, exf):
                     ok = False
                     break
                 taus.append((int(tau[0]), int(tau[1])))
@@ -626,9 +653,8 @@ def check_plaquettes(ctx, lc, pa, case):
             c = Cursor(o[f"p{k}"])
             col = c.z()
             mpolys = c.list(lambda: c.list(lambda: rd_pt(c)))
-            same = len(mpolys) == len(polys) and all(
-                len(mp) == len(ip) and np.max(np.abs(np.array([[float(x), float(y)] for x, y in mp]) - ip)) <= TOL
-                for mp, ip in zip(mpolys, polys))
+            mpf = [(np.array([[float(x), float(y)] for x, y in mp]), 0) for mp in mpolys]
+            same = match_multisets([(ip, 0) for ip in polys], mpf, lambda a, b: poly_close(a[0], b[0]))
             if not same or any(fc != rgba(pa["scheme"][col]) for fc in fcs):
                 ctx.k_mismatch(f"{what}: plaquette {i}: model draws {len(mpolys)} polygons (colour {col}), implementation {len(polys)} ({fcs[:1]}) or coordinates differ", case)
                 break
@@ -959,16 +985,16 @@ def lattice_cases(tier, seed):
     if tier == "quick":
         vor = gen.voronoi_cases(tier, rng, 36, 40)
     else:
-        vor = gen.voronoi_cases(tier, rng, 240, 150)
+        vor = gen.voronoi_cases(tier, rng, 160, 120)
     tiles = [c for c in ex if c["name"] in ("honeycomb_lattice", "hex_square_oct_lattice", "tri_non_lattice", "square_lattice")]
     der = gen.derived_cases(vor + tiles, rng)
     lats = ex + vor + der
-    reps = 2 if tier == "quick" else 3
+    reps = 2
     out = []
     for k, c in enumerate(lats):
         for r in range(reps if c["family"] in ("example", "voronoi") else 1):
             out.append({"kind": "lattice", "lattice": c, "seed": int(rng.integers(0, 2**31))})
-    for c in exact_grid_cases(rng, 40 if tier == "quick" else 300):
+    for c in exact_grid_cases(rng, 40 if tier == "quick" else 200):
         out.append({"kind": "lattice", "lattice": c, "exact": True, "seed": int(rng.integers(0, 2**31))})
     return out
 
@@ -982,8 +1008,8 @@ def run(ctx):
     cases = lattice_cases(ctx.tier, ctx.seed)
     for c in cases:
         evaluate_lattice(ctx, c)
-    evaluate_args(ctx, 250 if ctx.tier == "quick" else 2500, ctx.seed)
-    evaluate_intersections(ctx, 60 if ctx.tier == "quick" else 600, ctx.seed)
+    evaluate_args(ctx, 250 if ctx.tier == "quick" else 2000, ctx.seed)
+    evaluate_intersections(ctx, 60 if ctx.tier == "quick" else 400, ctx.seed)
 
 
 def search(ctx):
@@ -995,6 +1021,10 @@ def search(ctx):
 
 
 def replay(ctx, payload):
+    if "case" not in payload:          # an "unproved_*" replay: re-run the inputs on which model and implementation differed
+        for mm in payload.get("correspondence_mismatches", []):
+            replay(ctx, {"case": mm["case"]})
+        return
     case = payload["case"]
     k = case.get("kind")
     if k == "lattice":
